@@ -39,6 +39,22 @@ func valuesPerType(c *core.Ctx) int {
 // slice, map and named types in other structs) are in their registries. A violation seen only
 // there depends on the history of the instance; its replay re-runs the shard up to the case.
 var sharedInsts = map[string]*plenc.Plenc{}
+var sharedEpoch = -1
+
+// sharedTick retires the long-lived instances every 400 cases of a shard: their registries keep
+// every codec ever built (a struct codec holds a table of largest index + 1 entries), which over
+// the tens of thousands of types of a thorough run adds up to gigabytes per process. The epoch is
+// a function of the case index, so a replay from the start of the shard meets the same instances.
+func sharedTick(c *core.Ctx, idx int) {
+	n := c.NShards
+	if n < 1 {
+		n = 1
+	}
+	if e := idx / n / 400; e != sharedEpoch {
+		sharedEpoch = e
+		sharedInsts = map[string]*plenc.Plenc{}
+	}
+}
 
 func sharedInst(tc *tcase) *plenc.Plenc {
 	p := sharedInsts[tc.name]
@@ -57,6 +73,7 @@ func historyExtra(c *core.Ctx, tc *tcase, v reflect.Value, data []byte) map[stri
 }
 
 func roundTripCase(c *core.Ctx, idx int, mode int) {
+	sharedTick(c, idx)
 	if idx%509 == 9 {
 		bigContainers(c, idx, mode)
 		return
